@@ -31,18 +31,24 @@ RULE = ('each function of the family called through its excel_math_func wrapper 
         'multiples ± one last digit) through MOD and the 6 CEILING/FLOOR variants with every mode; then random k up '
         'to 10^6, j 0..6, digits -6..6, and binary floats sampled by bit pattern / uniform (sent as their repr '
         'decimal). Malformed stream: blank, logical, text, error operands in every position, fractional digits, zero '
-        'significance. Non-trivial = all operands numeric and the number is not already a multiple of the unit / '
+        'significance. Totality block: digit counts 27..400 / -27..-400 and huge / tiny numbers through every '
+        'function (a number or #NUM!, never an exception). Sequence block: each unusual call (raises, error value, '
+        'text / logical operand, zero significance, #NUM! corner, ±1e10 digits) runs as `prelude` in the same process '
+        'right before each ordinary tie case of every function, and the other way round; only the last call is '
+        'compared, so state leaking between calls shows on an ordinary case and the replay names the preceding call. '
+        'Non-trivial = all operands numeric and the number is not already a multiple of the unit / '
         'significance (the function has to move it).')
 ASSUMPTIONS = [
     'scalar arguments only (CSE array broadcasting of excel_math_func is not part of C19)',
     'a float argument stands for its shortest-repr decimal (Decimal(repr(x)) in the code); float(str) / '
     'Decimal.quantize / Fraction are correctly rounded (CPython contract)',
     'numeric text operands (read by Python float()) are not generated; text is only "", TRUE/FALSE, non-numeric',
-    'digits within -6..6 (28-digit Decimal context precision is never exceeded)',
+    'digit counts up to ±400 and numbers from 1e-300 to 1.7e308 are compared (bucket extreme); beyond ±400 digits the '
+    'calls are only used as preludes (the exact unit 10^-d is not computed by the model)',
 ]
 TRUSTED = ['modelled, not verified: CPython float<->decimal conversion (repr, float(Decimal)), Decimal.quantize, '
            'Fraction arithmetic, math.floor/ceil']
-REQUIRED_BUCKETS = ['via-formula', 'round:tie', 'round:neg-digits-tie', 'round:other', 'roundup', 'rounddown', 'trunc', 'int', 'mod',
+REQUIRED_BUCKETS = ['via-formula', 'extreme', 'sequence', 'round:tie', 'round:neg-digits-tie', 'round:other', 'roundup', 'rounddown', 'trunc', 'int', 'mod',
                     'ceiling', 'floor', 'ceiling_math', 'floor_math', 'ceiling_precise', 'floor_precise', 'even',
                     'odd', 'malformed', 'binary-float']
 EXHAUSTIVE = False
@@ -96,7 +102,7 @@ def _py(t):
 def _faithful(fr):
     """the float nearest to the decimal `fr` shows exactly that decimal as its shortest repr"""
     if fr.denominator == 1:
-        return abs(fr) < 2 ** 53
+        return True          # handed over as a Python int, which Decimal(repr(.)) / Fraction(repr(.)) read exactly
     f = fr.numerator / fr.denominator
     return Fraction(Decimal(repr(f))) == fr
 
@@ -116,6 +122,64 @@ def case(fn, *args):
 SIG_POOL = [Fraction(s) for s in ('1', '2', '3', '5', '7', '10', '100', '0.1', '0.2', '0.25', '0.5', '0.3', '0.7',
                                   '0.01', '0.05', '1.5', '2.5', '0.001', '12.5')]
 MODES = [None, 'n:0/1', 'n:1/1', 'n:-1/1', 'b:1', 'b:0', 'n:1/2']
+
+
+EXTREME_X = [Fraction(v) for v in ('1.5', '2.5', '1.23456', '0.5', '123456789.5', '123456789012345', '1234567890.12345',
+                                    '0.000123', '5e-05', '1.23e-05', '1e22', '1e25', '1e300', '1.7e308', '1e-300',
+                                    '1.2345e-300', '25', '151')]
+EXTREME_D = [0, 2, 5, 10, 15, 17, 20, 27, 28, 29, 40, 64, 65, 70, 100, 308, 324, 325, 400,
+             -1, -2, -15, -22, -27, -28, -29, -64, -100, -308, -400]
+EXTREME_S = [Fraction(v) for v in ('1', '0.001', '1e-05', '7', '1e22', '1e300', '1e-300', '3e-10')]
+
+
+def _c(fn, *vals, **kw):
+    def t(v):
+        if isinstance(v, str) and (v == 'z' or v[:2] in ('n:', 's:', 'b:', 'e:')):
+            return v
+        return tok(Fraction(v))
+    c = case(fn, *[t(v) for v in vals])
+    c.update(kw)
+    return c
+
+
+def _unusual_calls():
+    """calls that fail, return an error value or take a rare branch; `prelude_only` ones are never sent to the model
+    (digit counts whose unit 10^-d is astronomically large / small)"""
+    T = core.enc_text
+    u = [_c('trunc', '1.5', 100), _c('rounddown', '123456789.5', 70), _c('roundup', '1.5', 400),
+         _c('roundup', '123456789012345', 15), _c('round', '1.5', 28), _c('round', '1e25', 5),
+         _c('rounddown', '1e300', 2), _c('roundup', '2.5', -400), _c('trunc', '2.5', -400), _c('round', '1.5', -400),
+         _c('trunc', '1.5', 10 ** 10, prelude_only=True), _c('roundup', '1.5', -10 ** 10, prelude_only=True),
+         _c('rounddown', '1.5', 10 ** 7, prelude_only=True), _c('round', '1.5', -10 ** 7, prelude_only=True),
+         _c('roundup', '1.5', 10 ** 19, prelude_only=True), _c('trunc', '1.5', -10 ** 19, prelude_only=True),
+         _c('round', 'e:na', 1), _c('roundup', '2.5', 'e:div0'), _c('trunc', 'e:num'), _c('rounddown', T('abc'), 0),
+         _c('round', '2.5', T('x')), _c('roundup', 'z', 'z'), _c('round', 'b:1', 'b:1'), _c('trunc', T('TRUE'), 0),
+         _c('mod', 1, 0), _c('mod', 'e:ref', 3), _c('mod', '0.7', T('abc')), _c('floor', 1, 0), _c('ceiling', 1, 0),
+         _c('floor', 1, -1), _c('ceiling', '2.5', -2), _c('ceiling_math', '2.5', 0), _c('floor_math', '-2.5', 2, 'b:1'),
+         _c('floor_precise', '2.5', 0), _c('ceiling_precise', 'e:value'), _c('int', T('abc')), _c('even', 'e:null'),
+         _c('odd', 'z'), _c('even', 'b:1'), _c('ceiling_math', 'b:1', 'b:1', 'b:1'), _c('round', 1, 1),
+         _c('roundup', '-0.5', 0), _c('mod', '1e300', '0.001'), _c('floor', '1e300', '1e-05'),
+         # whole numbers with more digits than any fixed decimal context, rounded left of the point
+         _c('trunc', '1e100', -2), _c('roundup', math.factorial(60), -1), _c('rounddown', '1e70', -3),
+         _c('round', '1e300', -5), _c('roundup', '-1e300', -2)]
+    return u
+
+
+def _ordinary_calls():
+    o = [_c('round', '2.5', 0), _c('round', '-2.5', 0), _c('round', 25, -1), _c('round', -25, -1), _c('round', 151, -2),
+         _c('round', '2.1', 0), _c('round', '2.7', 0), _c('round', '2.675', 2), _c('round', '0.5'), _c('round', 1, 0),
+         _c('roundup', '2.5', 0), _c('roundup', '-2.5', 0), _c('roundup', '2.1', 0), _c('roundup', 21, -1),
+         _c('rounddown', '2.5', 0), _c('rounddown', '-2.5', 0), _c('rounddown', '2.7', 0), _c('rounddown', 29, -1),
+         _c('trunc', '2.5'), _c('trunc', '-2.7', 0), _c('trunc', '0.29', 2),
+         _c('ceiling', '2.5', 1), _c('ceiling', '-2.5', 1), _c('ceiling', '-2.5', -1), _c('ceiling', '0.7', '0.1'),
+         _c('floor', '2.5', 1), _c('floor', '-2.5', 1), _c('floor', '-2.5', -1), _c('floor', '0.7', '0.1'),
+         _c('ceiling_math', '2.5'), _c('ceiling_math', '-2.5', 1, 1), _c('ceiling_math', '-2.5', 2),
+         _c('floor_math', '2.5'), _c('floor_math', '-2.5', 1, 1), _c('floor_math', '-2.5', 2),
+         _c('ceiling_precise', '-2.5', -2), _c('floor_precise', '-2.5', -2), _c('ceiling_precise', '2.5'),
+         _c('mod', 7, 3), _c('mod', -7, 3), _c('mod', 7, -3), _c('mod', -7, -3), _c('mod', '0.7', '0.1'),
+         _c('mod', 1, -3), _c('int', '-2.5'), _c('int', '2.5'), _c('even', '2.5'), _c('even', '-2.5'), _c('even', 1),
+         _c('odd', '2.5'), _c('odd', '-2.5'), _c('odd', 0), _c('odd', 2)]
+    return o
 
 
 def _round_points(thorough, rng):
@@ -253,6 +317,34 @@ def _cases(tier, rng):
         s = tok(rng.choice(sigs))
         for fn in SIG6 + ('mod',):
             yield from out(emit(fn, x, s, src='float'))
+    # --- totality: digit counts far beyond the float's precision, huge and tiny numbers (a number or #NUM!, never an
+    #     exception)
+    for x in EXTREME_X:
+        for d in EXTREME_D:
+            for fn in ROUND4:
+                yield from out(emit(fn, tok(x), tok(d), src='extreme'))
+                if x > 0:
+                    yield from out(emit(fn, tok(-x), tok(d), src='extreme'))
+        for fn in ('int', 'even', 'odd'):
+            yield from out(emit(fn, tok(x), src='extreme'))
+            yield from out(emit(fn, tok(-x), src='extreme'))
+        for sg in EXTREME_S:
+            for fn in SIG6 + ('mod',):
+                yield from out(emit(fn, tok(x), tok(sg), src='extreme'))
+                yield from out(emit(fn, tok(-x), tok(-sg), src='extreme'))
+    # --- sequences in one process: an unusual call (fails, error value, odd branch) right before an ordinary one of
+    #     every function, and the other way round
+    unusual, ordinary = _unusual_calls(), _ordinary_calls()
+    for u in unusual:
+        for o in ordinary:
+            yield dict(o, prelude=[u], src='seq')
+            if not u.get('prelude_only'):
+                yield dict(u, prelude=[o], src='seq')
+    for i, u in enumerate(unusual):
+        v = unusual[(i * 7 + 3) % len(unusual)]
+        for o in ordinary[i % 3::3]:
+            yield dict(o, prelude=[u, v], src='seq')
+            yield dict(o, prelude=[u, ordinary[(i + 5) % len(ordinary)], v], src='seq')
     # --- malformed stream: operand kinds in every position, fractional digits
     odd_vals = ['z', 'b:1', 'b:0', 's:', core.enc_text('abc'), core.enc_text('TRUE'), core.enc_text('false'),
                 core.enc_text('x1'), core.enc_text('#EMPTY!')] + ['e:' + t for t in core.TAG_ERRS]
@@ -302,13 +394,37 @@ XL_NAME = {'ceiling_math': 'CEILING.MATH', 'floor_math': 'FLOOR.MATH', 'ceiling_
            'floor_precise': 'FLOOR.PRECISE'}
 
 
-def impl(c):
+_SCRUB = [case('rounddown', 'n:31/10', 'n:0/1'), case('roundup', 'n:31/10', 'n:0/1'), case('trunc', 'n:31/10'),
+          case('round', 'n:31/10', 'n:-1/1'), case('round', 'n:31/10', 'n:0/1'), case('mod', 'n:7/1', 'n:3/1'),
+          case('floor', 'n:31/10', 'n:1/1'), case('ceiling_math', 'n:31/10')]
+
+
+def _call(c):
     args = [_py(a) for a in c['args']]
-    if c.get('via') == 'formula' or c.get('src') == 'corpus-formula':
+    if c.get('via') == 'formula':
         refs = ['A1', 'B1', 'C1'][:len(args)]
         formula = f"={XL_NAME.get(c['fn'], c['fn'].upper())}({','.join(refs)})"
         return core.enc(pyc.eval_formula(formula, dict(zip(refs, args))))
     return core.enc(pyc.lib_call(_pyname(c['fn']), *args))
+
+
+def impl(c):
+    """the calls of `prelude` run first in the same process (their results and exceptions are discarded), then the
+    case's own call: state leaking from one call into the next shows as a wrong result of the ordinary call"""
+    if c.get('prelude'):
+        # ordinary successful calls first, so that what an EARLIER case of this process left behind is not blamed on
+        # this case's prelude (a replay in a fresh process runs the same three steps and is self-contained)
+        for sc in _SCRUB:
+            try:
+                _call(sc)
+            except Exception:   # noqa
+                pass
+    for pc in c.get('prelude', ()):
+        try:
+            _call(dict(pc, via=c.get('via')))
+        except Exception:   # noqa
+            pass
+    return _call(c)
 
 
 def model_lines(c):
@@ -324,7 +440,16 @@ def same(impl_out, model_out):
             return Fraction(m.numerator / m.denominator) == _fr(impl_out)
         except OverflowError:
             return False
+    if impl_out == 'e:num' and model_out and _is_num(model_out):
+        return _overflows(_fr(model_out))      # the exact result is beyond every float: Excel's #NUM!
     return False
+
+
+def _overflows(fr):
+    try:
+        return math.isinf(fr.numerator / fr.denominator)
+    except OverflowError:
+        return True
 
 
 def _all_numeric(c):
@@ -357,12 +482,73 @@ def _impl_decimal(out):
         return None
     fr = _fr(out)
     if fr.denominator == 1:
-        return fr
+        if abs(fr) < 2 ** 53:
+            return fr
+        try:
+            f = float(fr.numerator)
+        except OverflowError:
+            return fr
+        # an integral float past 2^53 arrives as its exact integer value; it stands for its shortest repr
+        return float_decimal(f) if Fraction(f) == fr and abs(f) != math.inf else fr
     return float_decimal(fr.numerator / fr.denominator)
+
+
+def _float_shows(fr):
+    """the exact value is the decimal some float shows as its shortest repr"""
+    if _overflows(fr):
+        return False
+    if fr.denominator == 1 and abs(fr) < 2 ** 53:
+        return True
+    return float_decimal(fr.numerator / fr.denominator) == fr
+
+
+def _nearest_float_is(expected, out):
+    """the implementation's number is the float nearest to the exact value `expected` (or #NUM! past every float)"""
+    if _overflows(expected):
+        return out == 'e:num'
+    return _is_num(out) and Fraction(expected.numerator / expected.denominator) == _fr(out)
+
+
+def _expected(fn, a):
+    """the property's value for the governed numeric call, computed exactly (used only to excuse results whose exact
+    decimal needs more digits than a float shows; every clause is still checked separately below)"""
+    x = a[0]
+    if fn in ROUND4:
+        u = Fraction(10) ** (-(int(a[1]) if len(a) > 1 else 0))
+        q = abs(x) / u
+        n = math.floor(q + Fraction(1, 2)) if fn == 'round' else math.ceil(q) if fn == 'roundup' else math.floor(q)
+        return _sgn(x) * n * u
+    if fn in SIG6:
+        sg = abs(a[1]) if len(a) > 1 else Fraction(1)
+        mode = a[2] if len(a) > 2 else Fraction(0)
+        return sg * (math.ceil(x / sg) if _goes_up(fn, x, a[1] if len(a) > 1 else Fraction(1), mode)
+                     else math.floor(x / sg))
+    return None
+
+
+def _goes_up(fn, x, s, mode):
+    if fn == 'ceiling_precise':
+        return True
+    if fn == 'floor_precise':
+        return False
+    if fn == 'ceiling_math':
+        return not (mode != 0 and x < 0)
+    if fn == 'floor_math':
+        return mode != 0 and x < 0
+    if fn == 'ceiling':
+        return s > 0
+    return s < 0
 
 
 def _is_multiple(r, u):
     return (r / u).denominator == 1
+
+
+def _flt(q):
+    try:
+        return float(q)
+    except OverflowError:
+        return math.copysign(math.inf, q)
 
 
 def _sgn(q):
@@ -379,9 +565,14 @@ def oracles(results):
             continue
         fn = c['fn']
         a = [_fr(t) for t in c['args']]
+        exp = _expected(fn, a)
+        if exp is not None and not _float_shows(exp) and _nearest_float_is(exp, r.impl):
+            continue                     # the exact result has more digits than a float shows; it is the nearest float
         res = _impl_decimal(r.impl)
         if res is None:
-            yield c, f'{fn}{tuple(map(float, a))} on numbers gave {core.show(r.impl)}'
+            if r.impl == 'e:num' and fn in ROUND4 and len(a) > 1 and a[1] < -300 and a[0] != 0:
+                continue                 # the multiple 10^-d is beyond every float: #NUM!
+            yield c, f'{fn}{tuple(map(_flt, a))} on numbers gave {core.show(r.impl)}'
             continue
         x = a[0]
         if fn in ROUND4:
@@ -425,26 +616,17 @@ def oracles(results):
             if _is_multiple(x, s) and res != x:
                 yield c, f'{fn}{tuple(map(float, a))} = {float(res)} moved an exact multiple'
                 continue
-            # direction: up (toward +inf) or down
-            if fn in ('ceiling_precise',):
-                up = True
-            elif fn == 'floor_precise':
-                up = False
-            elif fn == 'ceiling_math':
-                up = not (mode != 0 and x < 0)
-            elif fn == 'floor_math':
-                up = (mode != 0 and x < 0)
-            elif fn == 'ceiling':
-                up = s > 0
-            else:
-                up = s < 0
+            up = _goes_up(fn, x, s, mode)
             ok = (x <= res < x + abs(s)) if up else (x - abs(s) < res <= x)
             if not ok:
                 yield c, f'{fn}{tuple(map(float, a))} = {float(res)} is not the adjacent multiple ' \
                          f'{"above" if up else "below"}'
         elif fn in ('even', 'odd'):
             par = 0 if fn == 'even' else 1
-            if res.denominator != 1 or res % 2 != par:
+            if abs(x) >= 2 ** 52:
+                if abs(_fr(r.impl) - x) > abs(x) / 2 ** 52:
+                    yield c, f'{fn.upper()}({float(x)}) = {float(res)} is not the neighbouring integer'
+            elif res.denominator != 1 or res % 2 != par:
                 yield c, f'{fn.upper()}({float(x)}) = {float(res)} has the wrong parity'
             elif not (abs(x) <= abs(res) < abs(x) + 2) and not (fn == 'odd' and abs(x) < 1 and abs(res) == 1):
                 yield c, f'{fn.upper()}({float(x)}) = {float(res)} is not the next one away from zero'
@@ -461,7 +643,7 @@ def oracles(results):
         xf = _py(xt)
         if 'rounddown' in g and 'roundup' in g:
             dn, up = g['rounddown'][1], g['roundup'][1]
-            if not (abs(dn) <= abs(Fraction(xf)) <= abs(up)):
+            if not (abs(dn) <= abs(Fraction(float(xf))) <= abs(up)):
                 yield g['rounddown'][0].case, f'|ROUNDDOWN| <= |x| <= |ROUNDUP| fails at ({xf},{d}): ' \
                                               f'{float(dn)}, {float(up)}'
         if 'rounddown' in g and 'trunc' in g and g['rounddown'][1] != g['trunc'][1]:
@@ -504,6 +686,10 @@ def bucket(c):
     fn = c['fn']
     if c.get('via') == 'formula':
         return 'via-formula'
+    if c.get('src') == 'seq':
+        return 'sequence'
+    if c.get('src') == 'extreme':
+        return 'extreme'
     if not _all_numeric(c):
         return 'malformed'
     a = [_fr(t) for t in c['args']]
